@@ -8,7 +8,7 @@
    A connection is cut after ANY number [c] of body bytes (then a read error), or ends cleanly
    when the handler returns; [cn_p]/[cn_j] say how many messages had been published when the
    subscription was registered / when the response ended: ANY publish timing. *)
-From GoSse Require Import Base Lines Fields FieldParser Message MessageProofs MessageApi Whatwg TextLines WireDecode PrefixDecode EndToEnd EndToEndProofs.
+From GoSse Require Import Base Lines Fields FieldParser Message MessageProofs MessageApi Whatwg TextLines WireDecode PrefixDecode Replayers Fifo EndToEnd EndToEndProofs EndToEndBounded.
 
 (* A response body cut after c bytes: the received prefix is the first k encodings in full and a
    proper prefix of the next one; exactly the first k messages are interpreted - nothing of a
@@ -69,3 +69,55 @@ Proof.
       try (eexists; vm_compute; reflexivity).
   - vm_compute. repeat constructor; cbn; intuition discriminate.
 Qed.
+
+(* ---- the proviso "a replayer large enough to hold what is published while a client is away",
+   made exact.  The replayer is a FiniteReplayer of ANY capacity N, i.e. (C08) [Fifo.lastn N] of
+   the accepted puts; [valid_conns_b N] adds to the physical constraints that fewer than N
+   messages were published during each absence (cn_p - i < N: the event the client holds is still
+   buffered when it is registered again).  Then the bounded system behaves, connection by
+   connection, exactly as the unbounded one - so C05_end_to_end holds for it. *)
+Theorem C05_bounded_replayer_is_unbounded :
+  forall N order, pub_ok order ->
+  forall conns A m B, order = A ++ m :: B ->
+  valid_conns_b N order (S (length A)) (mid m) conns ->
+  run_conns_b N order (mid m) conns = run_conns order (mid m) conns /\
+  valid_conns order (S (length A)) (mid m) conns.
+Proof. exact bounded_is_unbounded. Qed.
+
+Theorem C05_end_to_end_bounded :
+  forall N order, pub_ok order ->
+  forall conns A m B, order = A ++ m :: B ->
+  valid_conns_b N order (S (length A)) (mid m) conns ->
+  exists n, run_conns_b N order (mid m) conns = map event_of (firstn n B) /\ (n <= length B)%nat /\
+            (forall cl, final_conn conns = Some cl -> cn_cut cl = None -> (S (length A) + n)%nat = cn_j cl).
+Proof. exact end_to_end_bounded. Qed.
+
+(* the unbounded statement is the instance "capacity at least the whole history" *)
+Theorem C05_unbounded_is_instance :
+  forall N order, (length order <= N)%nat ->
+  forall conns i last, (0 < i)%nat -> valid_conns order i last conns -> valid_conns_b N order i last conns.
+Proof. exact unbounded_is_instance. Qed.
+
+(* what the replayer sends when the presented ID has fewer than N successors: exactly them *)
+Theorem C05_resume_from_last_N :
+  forall N pre m post, NoDup (map mid (pre ++ m :: post)) -> (length post < N)%nat ->
+  resume (lastn N (pre ++ m :: post)) (mid m) = post.
+Proof. exact resume_lastn. Qed.
+
+(* non-vacuity: the sample run above is within the proviso for a replayer of 3 slots
+   (the four-message history does not fit it), and delivers the same events *)
+Example C05_sample_valid_bounded : valid_conns_b 3 c05_order 1 [49] c05_conns.
+Proof. vm_compute. repeat split; repeat constructor. Qed.
+Example C05_sample_received_bounded :
+  run_conns_b 3 c05_order [49] c05_conns = map event_of (skipn 1 c05_order).
+Proof. vm_compute. reflexivity. Qed.
+
+(* the proviso is necessary (refutation of the statement without it): a 2-slot replayer, the
+   client holding event 1 registered again when three messages are out - its ID was evicted, the
+   replayer (manual IDs) sends nothing, live delivery goes on: events 2 and 3 are lost.  The run
+   is physically valid, only [cn_p - i < N] fails (3 - 1 = 2). *)
+Example C05_too_small_replayer_loses_events :
+  valid_conns c05_order 1 [49] [mkconn 3 4 None] /\
+  run_conns_b 2 c05_order [49] [mkconn 3 4 None] = map event_of (skipn 3 c05_order) /\
+  run_conns c05_order [49] [mkconn 3 4 None] = map event_of (skipn 1 c05_order).
+Proof. vm_compute. repeat split; repeat constructor. Qed.
